@@ -1,4 +1,5 @@
 import Vita.C11.Model
+import Vita.C11.Big
 import Vita.C11.FloatImpl
 /-!
   Line protocol of the C11 / C12 drivers (executable side of the model).
@@ -9,6 +10,8 @@ import Vita.C11.FloatImpl
   Objects travel as flat lists of integers (doubles as their 64-bit patterns):
     hash  d0 d1                      fit  n b…            iga  age n g…        ide  age n b…
     mati/matu  cols n e…             dist count mean min max m2 n (key val)…
+    imep/team/pop/summ: see harness/c11_big.h; `load` takes the symbol table
+    `nsym (opcode hasPar arity)*` as trailing context integers
 -/
 namespace Vita.C11.Drv
 open Vita.C11
@@ -88,6 +91,50 @@ def decDist : D (Dist Nat) := fun s => match dN dNat 5 s with
     | some (kvs, s) => some (⟨c, m, mn, mx, m2, kvs⟩, s)
   | _ => none
 
+
+/-! composite types -/
+instance : Monad D where
+  pure a := fun s => some (a, s)
+  bind p f := fun s => match p s with
+    | none => none
+    | some (a, s') => f a s'
+
+def dGene : D (Gene Nat) := do
+  let op ← dNat; let hp ← dNat; let par ← dNat; let args ← dList dNat
+  pure ⟨op, if hp = 0 then none else some par, args⟩
+def dIMep : D (IMep Nat) := do
+  let age ← dNat; let cols ← dNat; let genes ← dList dGene; let bi ← dNat; let bc ← dNat
+  pure ⟨age, cols, genes, (bi, bc)⟩
+def dLayer : D (Layer Nat) := do
+  let a ← dNat; let inds ← dList dIMep
+  pure ⟨a, inds⟩
+def dSumm : D (Summary Nat) := do
+  let known ← dNat
+  let best ← (if known = 0 then (pure none : D (Option (Best Nat))) else do
+    let sol ← dIMep; let fit ← dList dNat; let acc ← dNat
+    pure (some ⟨sol, fit, acc⟩))
+  let el ← dInt; let mu ← dNat; let cr ← dNat; let g ← dNat; let li ← dNat
+  pure ⟨best, el, mu, cr, g, li⟩
+
+def encGene (g : Gene Nat) : List Int :=
+  [(g.op : Int), if g.par.isSome then 1 else 0, ((g.par.getD 0 : Nat) : Int), (g.args.length : Int)] ++ nats g.args
+def encIMep (x : IMep Nat) : List Int :=
+  [(x.age : Int), (x.cols : Int), (x.genes.length : Int)] ++ x.genes.flatMap encGene ++ [(x.best.1 : Int), (x.best.2 : Int)]
+def encTeam (t : List (IMep Nat)) : List Int := (t.length : Int) :: t.flatMap encIMep
+def encPop (p : List (Layer Nat)) : List Int :=
+  (p.length : Int) :: p.flatMap (fun l => [(l.allowed : Int), (l.inds.length : Int)] ++ l.inds.flatMap encIMep)
+def encSumm (s : Summary Nat) : List Int :=
+  (match s.best with
+   | none => [0]
+   | some b => [1] ++ encIMep b.solution ++ encFit b.fitness ++ [(b.accuracy : Int)]) ++
+  [s.elapsed, (s.mutations : Int), (s.crossovers : Int), (s.gen : Int), (s.lastImp : Int)]
+
+/-- symbol table context: `nsym (opcode hasPar arity)*` -/
+def decTab (ctx : List Int) : SymTab :=
+  match dEnd (dList (do let op ← dNat; let hp ← dNat; let ar ← dNat; pure (op, (⟨hp != 0, ar⟩ : SymInfo)) : D (Nat × SymInfo)) ctx) with
+  | none => fun _ => none
+  | some l => fun op => (l.find? (fun e => e.1 == op)).map (·.2)
+
 /-- model `save` of the object described by `ints` -/
 def doSave (ty : String) (ints : List Int) : Option Str :=
   match ty with
@@ -98,6 +145,10 @@ def doSave (ty : String) (ints : List Int) : Option Str :=
   | "mati" => (dEnd (decMat ints)).map Matrix.save
   | "matu" => (dEnd (decMat ints)).map Matrix.save
   | "dist" => (dEnd (decDist ints)).map (Dist.save fio)
+  | "imep" => (dEnd (dIMep ints)).map (IMep.save fio)
+  | "team" => (dEnd (dList dIMep ints)).map (Team.save fio)
+  | "pop" => (dEnd (dList dLayer ints)).map (Pop.save fio)
+  | "summ" => (dEnd (dSumm ints)).map (Summary.save fio)
   | _ => none
 
 def fin {α} (enc : α → List Int) (r : Option (α × Str)) : String :=
@@ -106,8 +157,12 @@ def fin {α} (enc : α → List Int) (r : Option (α × Str)) : String :=
   | some (x, rest) => "ok " ++ " ".intercalate ((enc x).map toString) ++ " | " ++ toHex rest
 
 /-- model `load` on a byte string -/
-def doLoad (ty : String) (s : Str) : Option String :=
+def doLoad (ty : String) (s : Str) (ctx : List Int := []) : Option String :=
   match ty with
+  | "imep" => some (fin encIMep (IMep.load fio (decTab ctx) s))
+  | "team" => some (fin encTeam (Team.load fio (decTab ctx) s))
+  | "pop" => some (fin encPop (Pop.load fio (decTab ctx) s))
+  | "summ" => some (fin encSumm (Summary.load fio (decTab ctx) s))
   | "hash" => some (fin encHash (Hash.load s))
   | "fit" => some (fin encFit (Fitness.load fio s))
   | "iga" => some (fin encIGa (IGa.load s))
@@ -125,10 +180,10 @@ def answer (line : String) : String :=
     | some ints => match doSave ty ints with
       | none => "bad-op"
       | some s => toHex s
-  | ["load", ty, hx] =>
-    match fromHex hx with
-    | none => "bad-op"
-    | some s => (doLoad ty s).getD "bad-op"
+  | "load" :: ty :: hx :: ctx =>
+    match fromHex hx, ctx.mapM String.toInt? with
+    | some s, some c => (doLoad ty s c).getD "bad-op"
+    | _, _ => "bad-op"
   | ["fmt", b] => match b.toNat? with
     | some n => toHex (FloatImpl.fmt17 n)
     | none => "bad-op"
